@@ -111,8 +111,12 @@ SIMPLE_GEOM = st.one_of(
     st.fixed_dictionaries({"type": st.just("point"), "p": c04.POINT}),
     st.fixed_dictionaries({"type": st.just("line"), "p": c04.POINT, "q": c04.POINT}),
 )
+_CELL = st.fixed_dictionaries({"type": st.just("cell"), "cell": st.integers(0, 63)})
+# "scattered": a few single cells - the selection is then rarely a rectangle, so its bounding
+# window contains cells that must be blanked
 GEOM = st.one_of(SIMPLE_GEOM, SIMPLE_GEOM, st.fixed_dictionaries({
-    "type": st.just("multi"), "parts": st.lists(SIMPLE_GEOM, min_size=2, max_size=3)}))
+    "type": st.just("multi"), "parts": st.lists(SIMPLE_GEOM, min_size=2, max_size=3)}),
+    st.fixed_dictionaries({"type": st.just("multi"), "parts": st.lists(_CELL, min_size=2, max_size=3)}))
 
 
 # ---- reading masks --------------------------------------------------------------------------
